@@ -115,6 +115,8 @@ def run(tier, replay=None):
     # a history of registrations: stand-in handlers see a warm-up call and are then replaced by the real ones (single calls only)
     for sc in scs:
         sc["rereg"] = bool(sc["reg"] and sc["emitted"] and rnd.random() < 0.3)
+    for sc in scs:
+        sc["handler_err"] = bool(sc["reg"] and rnd.random() < 0.3)
     byid = {s["id"]: s for s in scs}
     strip = lambda s: {k: v for k, v in s.items() if not k.startswith("_")}
     groups = [[strip(s)] for s in scs]
@@ -131,6 +133,7 @@ def run(tier, replay=None):
             a, b2 = dict(lst[i]), dict(lst[i + 1])
             a["id"], b2["id"] = a["id"] + "x", b2["id"] + "y"
             a["rereg"] = b2["rereg"] = False
+            a["handler_err"] = b2["handler_err"] = False
             byid[a["id"]], byid[b2["id"]] = a, b2
             pairs.append([strip(a), strip(b2)])
     # one call that emits far more notifications than any hand-over holds, to a handler slower than the stream: all of them arrive
